@@ -412,7 +412,7 @@ _PREV = {}     # the reader runs that preceded the current one in this process (
 def replay_data(lines, chunks, variant, entry):
     return {'entry': entry, 'variant': variant, 'lines_hex': [l.hex() for l in lines],
             'chunks_hex': [c.hex() for c in chunks],
-            'chunks_text': [c.decode('latin-1') for c in chunks][:40],
+            'chunks_text': [c.decode('latin-1') for c in chunks][:40], 'leaping_clock': bool(_PREV.get('leaping')),
             'previous': [{'variant': v, 'chunks_hex': [c.hex() for c in ch]} for v, ch in _PREV.get('runs', [])]}
 
 
@@ -436,7 +436,8 @@ def check_cases(ctx, cases, with_messages=False, variants=VARIANTS, samples=True
         stream = b''.join(chunks)
         rep.case((stream, tuple(len(c) for c in chunks), variant), kind=kind)
         _PREV['runs'] = _PREV.get('now', [])[-2:]
-        if n % 7 == 3:
+        _PREV['leaping'] = (n % 7 == 3)
+        if _PREV['leaping']:
             import leapclock
             with leapclock.leaping():      # an hour passes between any two clock readings (a chunk may come late)
                 got = impl_read(variant, chunks)
@@ -638,10 +639,13 @@ def replay(ctx, data):
     variant = data.get('variant', 'SocketStream')
 
     def once():
-        if data.get('entry') == 'iter':
-            bad = msgs_oracle(impl_messages('SocketStream', list(lines)), impl_messages(variant, chunks))
-        else:
-            bad = lines_oracle(lines, impl_read(variant, chunks))
+        import contextlib
+        import leapclock
+        with (leapclock.leaping() if data.get('leaping_clock') else contextlib.nullcontext()):
+            if data.get('entry') == 'iter':
+                bad = msgs_oracle(impl_messages('SocketStream', list(lines)), impl_messages(variant, chunks))
+            else:
+                bad = lines_oracle(lines, impl_read(variant, chunks))
         return f'{bad[0]}: {bad[1]}' if bad else None
     for p in data.get('previous') or []:    # the reader runs that preceded it in the recorded run, in order (new reader objects)
         impl_read(p['variant'], [bytes.fromhex(x) for x in p['chunks_hex']])
